@@ -17,7 +17,7 @@ RULE = (
     "Three case shapes (drawn first): 'sandwich' rules A, X<times>, B on listings A X^r B with r drawn around both bounds "
     "(min-1, min, max, max+1, random); 'free' rules from the describe-a-window generator with times on items and groups; 'meta' pairs "
     "(X times n  vs  X written n times; {min:n,max:n} vs n; the two YAML spellings of an operand-less item; times on operand-level $deref/$or) whose "
-    "all-matches lists must be identical. X ranges over item, item+operands, $and, $or, $not, $and_any_order; bounds 0 <= min <= max <= 6, and in a sixth of the sandwich cases two- and three-digit bounds (7..101, ranges up to 90 wide) with runs of that length. "
+    "all-matches lists must be identical. X ranges over item, item+operands, $and, $or, $not, $and_any_order; bounds 0 <= min <= max <= 6, and in a sixth of the sandwich cases two- and three-digit bounds (7..101, ranges up to 90 wide) with runs of that length, and in one in twenty-five ranges whose upper bound is 999..1002 with runs of hi-1 / hi / hi+1 repetitions. "
     "Oracle: reference matcher (verdict + span validity) for sandwich/free, list equality for meta. Non-trivial: times != 1 and (r within one of a "
     "bound, or a meta pair with >= 1 match, or expected-found); distinct by canonical hash."
 )
@@ -27,9 +27,9 @@ ASSUMPTIONS = [
     "operand-level times is judged by the metamorphic relation only",
 ]
 BIG_KINDS = ("item", "item-ops", "$and", "$or", "$not", "$and_any_order")
-KINDS = ["item", "item-ops", "$and", "$or", "$not", "$and_any_order", "nested-times", "nested-times", "capture-ref", "nested-times-gap", "nested-times-gap"]
+KINDS = ["item", "item-ops", "$and", "$or", "$not", "$and_any_order", "nested-times", "nested-times", "capture-ref", "nested-times-gap", "nested-times-gap", "or-with-not"]
 SHAPES = ["sandwich", "sandwich", "sandwich", "free", "meta", "meta"]
-FLOORS = {"shape=sandwich": 0.3, "shape=meta": 0.2, "edge=min": 0.035, "edge=max": 0.035, "edge=max+1": 0.028, "edge=min-1": 0.02, "rel=macro-plain-use": 0.009, "rel=macro-times-use": 0.006, "rel=operand-regcapture-ref": 0.005, "bounds=multi-digit": 0.03, "spelling=sibling-null": 0.04}
+FLOORS = {"shape=sandwich": 0.3, "shape=meta": 0.2, "edge=min": 0.035, "edge=max": 0.035, "edge=max+1": 0.028, "edge=min-1": 0.02, "rel=macro-plain-use": 0.009, "rel=macro-times-use": 0.006, "rel=operand-regcapture-ref": 0.005, "bounds=multi-digit": 0.03, "bounds=around-1000": 0.004, "spelling=sibling-null": 0.04}
 for _k in KINDS:
     FLOORS[f"kind={_k}"] = 0.04
 
@@ -119,6 +119,18 @@ def build_x(draw, kind, full=(False, False)):
                 alts.append(describe_inst(draw, ("0", b[0], b[2]), full))
                 insts.append([b])
         return {"$or": alts}, insts
+    if kind == "or-with-not":
+        # alternatives that consume different numbers of instructions although they look alike: a $not always consumes ONE
+        # instruction, however many its argument spans.  $or[$not[$and[x, y]], $and[x, x]] on a run of x: a repetition takes one x
+        # (through the $not) or two - the run only works out if the engine may come back and take the other alternative
+        x = fresh(draw)
+        y = fresh(draw, avoid=(x[0],))
+        dx, dy = describe_inst(draw, ("0", x[0], x[2]), (True, True)), describe_inst(draw, ("0", y[0], y[2]), (True, True))
+        width = draw(st.sampled_from([2, 2, 3]))
+        alts = [{"$not": [{"$and": [dx] * (width - 1) + [dy]}]}, {"$and": [dx] * width}]
+        if draw(st.booleans()):
+            alts.reverse()
+        return {"$or": alts}, [[x], [x] * width]
     if kind == "$not":
         decoy = fresh(draw)
         node = {"$not": [describe_inst(draw, ("0", decoy[0], decoy[2]), full)]}
@@ -155,9 +167,21 @@ def cases(draw):
         # handled digit-wise, or capped, first shows
         lo = draw(st.sampled_from([7, 9, 10, 11, 12, 19, 20, 31, 32, 64, 99, 100, 101]))
         hi = lo if form == "int" else lo + draw(st.sampled_from([0, 1, 2, 9, 10, 90]))
+    # (no alternation inside the repeated node: a thousand repetitions of a choice make a failing search exponential - a time limit,
+    # not a verdict)
+    huge = shape == "sandwich" and kind in ("item", "item-ops", "$and", "$not") and not big and draw(st.integers(0, 7)) == 0
+    if huge:
+        # a range whose upper bound lies at / beyond 1000 (the value JASM uses elsewhere as 'no limit'), with runs of that length
+        form = "range"
+        lo = draw(st.sampled_from([0, 1, 2, 990]))
+        hi = draw(st.sampled_from([999, 1000, 1000, 1001, 1002]))
     t = times_value(draw, lo, hi, form)
     spelling = draw(st.sampled_from(["inside", "sibling", "sibling-first", "sibling-null"]))
     full = draw(st.sampled_from([(False, False), (False, False), (True, False), (False, True), (True, True)]))
+    if huge:
+        # whole names under both full-match flags: a substring name can sit at several places of one field, and a thousand repetitions
+        # of that choice make a failing search exponential (a time limit, not a verdict)
+        full = (True, True)
     if shape == "free":
         L = draw(listings(min_len=2, max_len=12))
         NV = norm_view(L)
@@ -176,8 +200,15 @@ def cases(draw):
     r = max(0, r)
     body = []
     usable = inst_alts if kind != "$not" else inst_alts[:-1]
-    for _ in range(r):
-        body.extend(draw(st.sampled_from(usable)))
+    if huge:
+        edge = draw(st.sampled_from(["max", "max", "max+1", "max+1", "inside", "min"]))
+        r = {"max": hi, "max+1": hi + 1, "inside": draw(st.sampled_from([hi - 1, 1000, 1001, max(lo, 1)])), "min": lo}[edge]
+        r = max(0, min(r, hi + 1))
+        one = draw(st.sampled_from(usable))
+        body = [list(x) for x in one] * r  # one instance repeated: a thousand separate draws would not fit a test case
+    else:
+        for _ in range(r):
+            body.extend(draw(st.sampled_from(usable)))
     if kind == "$not" and r > 0 and draw(st.integers(0, 3)) == 0:
         # one repetition is the forbidden instruction itself
         body[draw(st.integers(0, len(body) - 1))] = inst_alts[-1][0]
@@ -251,7 +282,7 @@ def cases(draw):
     if shape == "sandwich":
         pattern = [dA, attach(node, t, spelling), dB]
         assume(_names_ok(pattern))
-        return {"shape": shape, "kind": kind, "listing": L, "pattern": pattern, "edge": edge, "times": t, "r": r, "flags": list(full), "ext": ext, "big": big, "spelling": spelling}
+        return {"shape": shape, "kind": kind, "listing": L, "pattern": pattern, "edge": edge, "times": t, "r": r, "flags": list(full), "ext": ext, "big": big, "huge": huge, "spelling": spelling}
     # meta
     rel = draw(st.sampled_from(["unroll", "unroll", "range-eq-int", "spelling", "operand-deref", "operand-or", "operand-not", "operand-capture-ref", "operand-regcapture-ref", "macro-plain-use", "macro-plain-use", "macro-plain-use", "macro-times-use", "macro-times-use"]))
     n_ = draw(st.integers(0, 4))
@@ -382,6 +413,8 @@ def evaluate(case):
         ev.tags.append("ext=" + case["ext"])
     if case.get("big"):
         ev.tags.append("bounds=multi-digit")
+    if case.get("huge"):
+        ev.tags.append("bounds=around-1000")
     if case.get("spelling"):
         ev.tags.append("spelling=" + case["spelling"])
     if shape in ("sandwich", "free"):
